@@ -937,6 +937,27 @@ func (r *Run) aliasCheck(st *State, fr *Frame, vals []Val, what string) {
 	}
 }
 
+// aliasInCheck: the converse of aliasCheck — a slice stored into a lock-guarded field must not be backed by an
+// array the caller still holds (a parameter slice or a reslice of one): the caller could change the guarded
+// contents without the lock, and the value semantics of slices would be unsound.
+func (r *Run) aliasInCheck(st *State, fr *Frame, a *Addr, v Val, in ssa.Instruction) {
+	e := r.e
+	sv, ok := v.(*SliceV)
+	if !ok {
+		return
+	}
+	parts := strings.SplitN(a.Region, ".", 2)
+	if len(parts) != 2 || e.guardOf(parts[0], parts[1]).Kind != "guard" {
+		return
+	}
+	goal := True
+	if sv.Ext {
+		goal = Or(sv.Nil, Eq(sv.Len, IntLit(0)))
+	}
+	e.emitWith(st, fmt.Sprintf("%s/alias-in:%s", e.fnName[fr.Fn], parts[1]), "", nil, goal,
+		"slice stored into guarded field "+a.Region+" is not backed by an array the caller still holds (parameter slice)", e.posOf(in), []string{"C11"}, nil)
+}
+
 func (r *Run) afterInlined(st *State, parent *Frame, child *Frame, res []Val) {
 	e := r.e
 	if child.OnRet != "" {
@@ -1522,6 +1543,7 @@ func (r *Run) store(st *State, fr *Frame, av Val, v Val, vt types.Type, in ssa.I
 			return
 		case AField:
 			r.accessCheck(st, fr, a, true, in)
+			r.aliasInCheck(st, fr, a, v, in)
 			r.noteEscape(st, v)
 			e.writeLoc(st, a.Region, a.FieldT, a.Ref, v)
 			return
